@@ -47,11 +47,10 @@ Section C07.
     alg_sign mac pk_sign ec_sign r k msg = mac (ja_hash r) (k_id k) msg.
   Proof. exact (hmac_raw_key mac pk_sign ec_sign). Qed.
 
-  (* PARTIAL: the soundness direction (Impl accepts => the signature verifies over the Spec
-     signing input of exactly the received header OCTETS and payload, whatever the JSON
-     spelling of the header: json_loads is the only link).  The converse (Spec accepts =>
-     Impl accepts) additionally depends on header validation (C15) and key resolution and
-     is covered by the differential run against the reference implementation. *)
+  (* the soundness direction on the Impl's own verdict (Impl accepts => the signature verifies
+     over the Spec signing input of exactly the received header OCTETS and payload, whatever
+     the JSON spelling of the header: json_loads is the only link); in Spec terms and with the
+     converse: c07_verify_is_spec_sound / c07_verify_is_spec_complete below *)
   Theorem c07_verify_is_spec_partial : forall hdr payload sseg src algs o,
     bytes_ok hdr = true -> bytes_ok payload = true -> no_dot sseg = true ->
     deserialize_compact json_loads mac pk_verify ec_verify
@@ -61,6 +60,91 @@ Section C07.
              (spec_signing_input hdr payload true) sseg.
   Proof. exact (verify_is_spec_sound json_loads mac pk_verify ec_verify). Qed.
 End C07.
+
+(* ---- "accepts exactly the tokens the Spec accepts" ----
+   Spec: C07Spec.spec_sig_ok / spec_verify_compact (RFC 7515 5.2 with the RFC 7518 /
+   8037 / 8812 algorithms on the Spec's own primitives (the S_ variables).  The Impl's primitives are
+   the Spec's for equal parameters (link_pk, link_ec: same name, key type, family, hash,
+   curve, padding => same function; the parameter tables are equal by c07_alg_params). *)
+Section C07Spec.
+  Variable json_loads : bytes -> res pv.
+  Variable mac : string -> N -> bytes -> res bytes.
+  Variable pk_verify : jws_alg_row -> N -> bytes -> bytes -> res bool.
+  Variable ec_verify : jws_alg_row -> N -> bytes -> Z -> Z -> res bool.
+  Variable S_pk_verify : spec_alg -> N -> bytes -> bytes -> res bool.
+  Variable S_ec_verify : spec_alg -> N -> bytes -> Z -> Z -> res bool.
+  Hypothesis link_pk : forall r a kid m s, row_view r = impl_view a -> pk_verify r kid m s = S_pk_verify a kid m s.
+  Hypothesis link_ec : forall r a kid m x y, row_view r = impl_view a -> ec_verify r kid m x y = S_ec_verify a kid m x y.
+
+  (* signature level, both directions *)
+  Theorem c07_sig_spec_impl : forall r a k msg sig,
+    row_view r = impl_view a ->
+    spec_sig_ok mac S_pk_verify S_ec_verify a (k_id k) (k_kty k) (k_crv k) msg sig ->
+    check_key_op k "verify" = Ok tt ->
+    (sa_kind a = KEcdsa -> (k_bits k + 7) / 8 = sa_L a) ->
+    fam_kty_ok r = true ->
+    alg_verify mac pk_verify ec_verify r k msg sig = Ok true.
+  Proof. intros r a k msg sig; eapply spec_sig_impl; eassumption. Qed.
+
+  Theorem c07_sig_impl_spec : forall r a k msg sig,
+    row_view r = impl_view a -> fam_kty_ok r = true ->
+    (sa_kind a = KEcdsa -> k_crv k = sa_curve a -> (k_bits k + 7) / 8 = sa_L a /\ 0 < sa_L a) ->
+    alg_verify mac pk_verify ec_verify r k msg sig = Ok true ->
+    spec_sig_ok mac S_pk_verify S_ec_verify a (k_id k) (k_kty k) (k_crv k) msg sig.
+  Proof. intros r a k msg sig; eapply impl_sig_spec; eassumption. Qed.
+
+  (* completeness, compact: Spec accepts /\ header ok /\ key resolves => Impl accepts and
+     returns the same header and payload — for EVERY header octet string (any spelling) *)
+  Theorem c07_verify_is_spec_complete : forall hdr h payload sseg sig src algs r a k,
+    bytes_ok hdr = true -> bytes_ok payload = true -> no_dot sseg = true ->
+    json_loads hdr = Ok (PDict h) -> check_header (reg15 algs) (PDict h) = Ok tt ->
+    (exists algv, dget h s_alg = Some algv /\ get_alg (reg15 algs) algv = Ok r) ->
+    row_view r = impl_view a ->
+    guess_key src (PDict h) = Ok k -> check_use k = Ok tt -> check_key_op k "verify" = Ok tt ->
+    (sa_kind a = KEcdsa -> (k_bits k + 7) / 8 = sa_L a) ->
+    b64d sseg = Ok sig ->
+    spec_verify_compact mac S_pk_verify S_ec_verify a (k_id k) (k_kty k) (k_crv k) hdr payload sig ->
+    exists o, deserialize_compact json_loads mac pk_verify ec_verify
+                (b64e hdr ++ 46 :: b64e payload ++ 46 :: sseg) src algs = Ok o /\
+              co_protected o = PDict h /\ co_payload o = payload.
+  Proof. intros hdr h payload sseg sig src algs r a k; eapply verify_is_spec_complete; eassumption. Qed.
+
+  (* completeness, flattened JSON with a protected header and an optional unprotected one *)
+  Theorem c07_verify_flat_is_spec_complete : forall hdr h uh payload sseg sig src algs r a k,
+    bytes_ok hdr = true -> bytes_ok payload = true ->
+    json_loads hdr = Ok (PDict h) ->
+    let m := {| m_protected := Some (PDict h); m_header := uh |} in
+    forall headers, member_headers m = Ok headers ->
+    check_header (reg15 algs) (PDict headers) = Ok tt ->
+    (exists algv, dget headers s_alg = Some algv /\ get_alg (reg15 algs) algv = Ok r) ->
+    row_view r = impl_view a ->
+    guess_key src (PDict headers) = Ok k -> check_use k = Ok tt -> check_key_op k "verify" = Ok tt ->
+    (sa_kind a = KEcdsa -> (k_bits k + 7) / 8 = sa_L a) ->
+    b64d sseg = Ok sig ->
+    spec_verify_compact mac S_pk_verify S_ec_verify a (k_id k) (k_kty k) (k_crv k) hdr payload sig ->
+    exists o, deserialize_json json_loads mac pk_verify ec_verify
+                (JFlat (Some (b64e payload))
+                   {| js_protected := Some (b64e hdr); js_header := uh; js_signature := Some sseg |}) src algs = Ok o /\
+              jo_members o = [m] /\ jo_payload o = payload.
+  Proof. intros hdr h uh payload sseg sig src algs r a k; eapply verify_flat_is_spec_complete; eassumption. Qed.
+
+  (* soundness in Spec terms, compact: an accepted JWS is one the Spec accepts *)
+  Theorem c07_verify_is_spec_sound : forall hdr payload sseg src algs o,
+    bytes_ok hdr = true -> bytes_ok payload = true -> no_dot sseg = true ->
+    (forall k a, In a spec_table -> sa_kind a = KEcdsa -> k_crv k = sa_curve a ->
+                 (k_bits k + 7) / 8 = sa_L a /\ 0 < sa_L a) ->
+    deserialize_compact json_loads mac pk_verify ec_verify
+      (b64e hdr ++ 46 :: b64e payload ++ 46 :: sseg) src algs = Ok o ->
+    json_loads hdr = Ok (co_protected o) /\ co_payload o = payload /\
+    exists a k sig, In a spec_table /\ guess_key src (co_protected o) = Ok k /\ b64d sseg = Ok sig /\
+      py_getitem_str (co_protected o) s_alg = Ok (PStr (asc (sa_name a))) /\
+      spec_verify_compact mac S_pk_verify S_ec_verify a (k_id k) (k_kty k) (k_crv k) hdr payload sig.
+  Proof. intros hdr payload sseg src algs o; eapply verify_is_spec_sound_spec; eassumption. Qed.
+End C07Spec.
+
+(* every row of the table of /repo has its Spec row (and vice versa the tables are equal) *)
+Theorem c07_row_has_spec : forall r, In r jws_alg_table -> exists a, In a spec_table /\ row_view r = impl_view a.
+Proof. exact row_has_spec. Qed.
 
 (* the fixed-width integer codec is I2OSP (reused from C19) *)
 Theorem c07_encode_int_is_I2OSP : forall z bits,
@@ -81,3 +165,9 @@ Print Assumptions c07_ec_sig_is_spec.
 Print Assumptions c07_hmac_raw_key.
 Print Assumptions c07_verify_is_spec_partial.
 Print Assumptions c07_encode_int_is_I2OSP.
+Print Assumptions c07_sig_spec_impl.
+Print Assumptions c07_sig_impl_spec.
+Print Assumptions c07_verify_is_spec_complete.
+Print Assumptions c07_verify_flat_is_spec_complete.
+Print Assumptions c07_verify_is_spec_sound.
+Print Assumptions c07_row_has_spec.
